@@ -314,3 +314,22 @@ def drive_schedule_dfs(ctx, owners, depth, nontrivial):
             if len(choices) < depth and not stats['exhausted_choice']:
                 for c in range(stats['pending_now']):
                     stack.append(choices + [c])
+
+
+def flush_busy_history():
+    """flush() called while the scheduler is blocked spawning into a full bounded store pool."""
+    OK = {'shape': 'none'}
+    T = {'shape': 'raise_t', 'replies': [0]}
+
+    @st.composite
+    def strat(draw):
+        cfg = {'backend': draw(st.sampled_from(['dict', 'disk', 'shelf'])), 'backoff': [draw(st.sampled_from([8, 5]))],
+               'backoff_forever': draw(st.booleans()), 'announce': True, 'store_pool': 2, 'relay_pool': draw(st.sampled_from([None, 2]))}
+        acts = [['enqueue', {'n': draw(st.integers(1, 3)), 'sender': True, 'body': ''}]]
+        if draw(st.booleans()):
+            acts += [['enqueue', {'n': 1, 'sender': True, 'body': ''}], ['serve', T]]
+        acts += [['answer', draw(st.sampled_from([OK, T]))], ['announce', 0], ['flush']]
+        tail = draw(st.lists(st.one_of(st.just(['storage']), st.integers(0, 3).map(lambda i: ['release', i, OK]), st.just(['flush']),
+                                       st.just(['announce', 0]), st.just(['tick']), st.just(['answer', OK])), max_size=10))
+        return cfg, acts + tail
+    return strat()
